@@ -26,3 +26,14 @@ def o : sample.Outer := ⟨⟨5⟩, ""⟩
 #eval for name in ["a", "c", "q", "zz", ""] do
   IO.println s!"{sample.Outer.Store X o name (raw [1,2,3])} {sample.Outer.Store X o name (raw [1,2])} {sample.Outer.Store X o name (once name [9,9,9,9])} {sample.Outer.Store X o name (once name [9])}"
 #eval IO.println s!"{sample.Outer.StoreBlob X o "b" [1,2,3,4]} {sample.Outer.StoreBlob X o "x" []}"
+/- session 6: a buffer field written through (`Add` returns the new receiver), `uint32` of an `int`, `binary.Write` of
+   `pe.DataDirectory`, section readers over bytes / copied, `io.MultiReader`, `ReadFrom`, `Read(make(…))` -/
+#eval for n in [(7 : Int), -1, 4294967296 + 5] do
+  let b : sample.Box := ⟨⟨0, 0⟩, n, [], ⟨[1, 2]⟩, ⟨0⟩⟩
+  IO.println s!"{sp (sample.Box.All b)} {sample.Box.Skip b 1}"
+  let r := sample.Box.Add b [9, 8, 7]
+  let b := r.1
+  IO.println s!"{e r.2} {b.Dir.VirtualAddress} {b.Dir.Size} {sp (sample.Box.All b)} {sample.Box.Skip b 1} {sample.Box.Skip b 0} {sample.Box.Skip b 5}"
+  let r := sample.Box.Add b [6]
+  let b := r.1
+  IO.println s!"{e r.2} {b.Dir.VirtualAddress} {b.Dir.Size} {sp (sample.Box.All b)} {sample.Box.DrainCopy b} {sample.Box.DrainCopy b}"
